@@ -877,11 +877,11 @@ class WcSplit(Generic[AnyStr]):
                     except StopIteration:
                         pass
                 elif c == '[':
-                    index = i.index
+                    subindex = i.index
                     try:
                         self._sequence(i)
                     except StopIteration:
-                        i.rewind(i.index - index)
+                        i.rewind(i.index - subindex)
 
         except StopIteration:
             success = False
